@@ -180,7 +180,7 @@ theorem normalEligible_imp (s : State) (n : Node) (size : Int)
 
 /-- the super-node loop only ever returns the index of an eligible super node -/
 theorem nextSuperLoop_sound (s : State) (snodes : List Node) (ignore : List Addr) (size : Int) (round0 fuel i j : Nat)
-    (h : nextSuperLoop s snodes ST_SELECT 8000 ignore size round0 fuel i = some (some j)) :
+    (h : nextSuperLoop s snodes ST_SELECT 8000 ignore size round0 fuel i = some j) :
     ∃ n, snodes[j]? = some n ∧ superEligible s n ST_SELECT 8000 ignore size = true := by
   induction fuel generalizing i with
   | zero => simp [nextSuperLoop] at h
